@@ -5,7 +5,7 @@
 
 /// a valid, fully populated cell body of column type `t` (two elements per list / set, one map entry, every
 /// tuple / UDT field present; vectors with their dimension)
-fn sample_cell(t: &Ty) -> Vec<u8> {
+fn sample_cell(t: &Ty, variant: u32) -> Vec<u8> {
     use NativeType::*;
     fn framed(out: &mut Vec<u8>, cell: &[u8]) {
         out.extend_from_slice(&(cell.len() as i32).to_be_bytes());
@@ -28,33 +28,38 @@ fn sample_cell(t: &Ty) -> Vec<u8> {
             _ => vec![],
         },
         Ty::List(e) | Ty::Set(e) => {
-            let mut out = 2i32.to_be_bytes().to_vec();
-            for _ in 0..2 {
-                framed(&mut out, &sample_cell(e));
+            // variant 1: empty collections; variant 2: three elements
+            let n = match variant { 1 => 0, 2 => 3, _ => 2 };
+            let mut out = (n as i32).to_be_bytes().to_vec();
+            for _ in 0..n {
+                framed(&mut out, &sample_cell(e, variant));
             }
             out
         }
         Ty::Map(k, v) => {
-            let mut out = 1i32.to_be_bytes().to_vec();
-            framed(&mut out, &sample_cell(k));
-            framed(&mut out, &sample_cell(v));
+            let n = match variant { 1 => 0, 2 => 2, _ => 1 };
+            let mut out = (n as i32).to_be_bytes().to_vec();
+            for _ in 0..n {
+                framed(&mut out, &sample_cell(k, variant));
+                framed(&mut out, &sample_cell(v, variant));
+            }
             out
         }
         Ty::Tuple(ts) => {
             let mut out = Vec::new();
-            ts.iter().for_each(|t| framed(&mut out, &sample_cell(t)));
+            ts.iter().for_each(|t| framed(&mut out, &sample_cell(t, variant)));
             out
         }
         Ty::Udt(_, _, fs) => {
             let mut out = Vec::new();
-            fs.iter().for_each(|(_, t)| framed(&mut out, &sample_cell(t)));
+            fs.iter().for_each(|(_, t)| framed(&mut out, &sample_cell(t, variant)));
             out
         }
         Ty::Vector(e, d) => {
             let mut out = Vec::new();
             let fixed = crate::c01::size_for_vector(e).is_some();
             for _ in 0..*d {
-                let c = sample_cell(e);
+                let c = sample_cell(e, variant);
                 if !fixed {
                     out.push(c.len() as u8); // unsigned vint of a length < 128
                 }
@@ -65,10 +70,10 @@ fn sample_cell(t: &Ty) -> Vec<u8> {
     }
 }
 
-fn run_deser(e: &Entry, ty: &Ty, ctx: &mut Ctx) -> String {
+fn run_deser(e: &Entry, variant: u32, ty: &Ty, ctx: &mut Ctx) -> String {
     let (Some(tc), Some(de)) = (e.tc, e.deser) else { return "bad-case no-deserialize-impl".to_owned() };
     let ct = to_column_type(ty);
-    let cell = sample_cell(ty);
+    let cell = sample_cell(ty, variant);
     let checked = tc(&ct).is_ok();
     let res = std::panic::catch_unwind(std::panic::AssertUnwindSafe(|| de(&ct, Some(&cell))));
     match res {
@@ -85,5 +90,67 @@ fn run_deser(e: &Entry, ty: &Ty, ctx: &mut Ctx) -> String {
             }
             "safe".to_owned()
         }
+    }
+}
+
+macro_rules! row_deser {
+    ($label:expr, $iter:expr, $($name:literal => $t:ty),+ $(,)?) => {
+        match $label {
+            $($name => Some(<$t as DeserializeRow>::deserialize($iter).is_ok()),)+
+            _ => None,
+        }
+    };
+}
+
+/// `deserrow`: `<R as DeserializeRow>::deserialize(column_iterator)` WITHOUT `type_check` over one valid row of the
+/// given column types, under catch_unwind (the row-level sites: a missing column `unreachable!`, the excess-column
+/// `assert!`, and every column reader's own sites).
+fn run_deserrow(label: &str, tys: &[Ty], ctx: &mut Ctx) -> String {
+    let cts: Vec<ColumnType<'static>> = tys.iter().map(to_column_type).collect();
+    let specs: Vec<ColumnSpec<'static>> =
+        cts.iter().enumerate().map(|(i, ct)| ColumnSpec::owned(format!("c{}", i), ct.clone(), TableSpec::owned("ks".into(), "t".into()))).collect();
+    let mut row = Vec::new();
+    for t in tys {
+        let c = sample_cell(t, 0);
+        row.extend_from_slice(&(c.len() as i32).to_be_bytes());
+        row.extend_from_slice(&c);
+    }
+    let bytes = Bytes::from(row);
+    let checked = row_tc!(label, &specs,
+        "Row" => Row,
+        "ColumnIterator" => ColumnIterator,
+        "()" => (),
+        "(i32,)" => (i32,),
+        "(i32,String)" => (i32, String),
+        "(Option<i32>,Vec<String>,CqlValue)" => (Option<i32>, Vec<String>, CqlValue),
+        "(i64,BTreeMap<i32,String>,(i32,f32),Option<HashSet<i32>>)" => (i64, BTreeMap<i32, String>, (i32, f32), Option<HashSet<i32>>),
+    );
+    let Some(checked) = checked else { return "bad-case".to_owned() };
+    let res = std::panic::catch_unwind(std::panic::AssertUnwindSafe(|| {
+        let iter = ColumnIterator::new(&specs, FrameSlice::new(&bytes));
+        row_deser!(label, iter,
+            "Row" => Row,
+            "ColumnIterator" => ColumnIterator,
+            "()" => (),
+            "(i32,)" => (i32,),
+            "(i32,String)" => (i32, String),
+            "(Option<i32>,Vec<String>,CqlValue)" => (Option<i32>, Vec<String>, CqlValue),
+            "(i64,BTreeMap<i32,String>,(i32,f32),Option<HashSet<i32>>)" => (i64, BTreeMap<i32, String>, (i32, f32), Option<HashSet<i32>>),
+        )
+    }));
+    match res {
+        Err(_) => {
+            if checked.is_ok() {
+                ctx.fail(format!("reinterpretation: <{}>::deserialize panicked on columns that PASSED the row type_check", label));
+            }
+            "panics".to_owned()
+        }
+        Ok(Some(ok)) => {
+            if checked.is_ok() && !ok {
+                ctx.fail(format!("a valid row of columns that passed the row type_check failed to decode into {}", label));
+            }
+            "safe".to_owned()
+        }
+        Ok(None) => "bad-case".to_owned(),
     }
 }
